@@ -48,11 +48,13 @@ import warnings
 import numpy as np
 
 from .. import gen, mon, zoo
+from ..boot import REPO
+from ..obs import exception_site
 
 LEVEL = "exploration"
 RULE = (
     "structured corpus = every model class x every applicable transformation (transpose, featperm, sampleperm, "
-    "split_ds, split_list, naming[7 kinds]) x base container (DataArray/Dataset/list) with seed-independent data; "
+    "split_ds, split_list, naming[8 kinds]) x base container (DataArray/Dataset/list) with seed-independent data; "
     "random part = seeded draws of class, transformation or a composition of 2-4 of them, shapes n=12..40, "
     "p=4..36, real/complex input, standardize/coslat, class configuration (alpha, use_pca, rotation power, base "
     "class of a rotator, EEOF/POP/OPA PCA truncation). A case is non-trivial when the re-laid-out copy really "
@@ -255,7 +257,7 @@ FULL_NAMING = ("EOF", "ExtendedEOF", "OPA", "EOFBootstrapper", "CPCCA")
 def cases(tier, seed):
     out = []
     i = 0
-    thorough = tier == "thorough"
+    thorough = True  # the structured corpus is the same in both tiers (a case costs ~0.5 s CPU)
     C3 = ("da", "ds", "list")
     # structured corpus (seed independent): every class x applicable transformation x container variants
     for ci, cls in enumerate(CLASSES):
@@ -287,7 +289,7 @@ def cases(tier, seed):
             for sub, cont, tm, nrep in variants:
                 out.append(_draw(gen.rng_for(7001, i), cls, op, sub, cont, tm, nrep))
                 i += 1
-    nrand = 90 if tier == "quick" else 4000
+    nrand = 240 if tier == "quick" else 8000
     for j in range(nrand):
         out.append(_draw(gen.rng_for(seed, 7, j)))
     return out
@@ -956,6 +958,11 @@ def run_case(case, obs):
         if names is not None and "is already present in data" in msg:
             obs.cell("refused:name_in_data")
             obs.refuse("xeofs refuses a sample/feature name that equals a data dimension: " + msg[:120])
+        if case["naming"] == "dimn" and (exception_site(e, REPO) or "").startswith("xeofs/preprocessing/stacker.py"):
+            # a name of the internal positional dimensions collides inside the Stacker (xarray's own rename/stack
+            # ValueError instead of xeofs's message): still a refusal, not a wrong answer
+            obs.cell("refused:name_in_data")
+            obs.refuse("name collides with an internal positional dimension: " + msg[:120])
         raise
     except RuntimeError as e:
         if "did not converge" in str(e):  # explicit refusal of the iterative rotation; no unique answer to compare
